@@ -16,6 +16,7 @@ from multiprocessing import Pool
 import numpy as np
 
 from .. import models, quant, tlc
+from .. import limits
 
 LEVEL = "model_checking"
 TICK = 1e5
@@ -68,6 +69,7 @@ def build_model(cell):
     return models.TwoField(u=cell["u"])
 
 
+@limits.limited(400)          # a normal cell takes seconds; the event then carries out=CellTimeout, which TLC rejects
 def run_cell(cell):
     import WallGo
     from WallGo import Fields
@@ -84,7 +86,7 @@ def run_cell(cell):
     ev = {"e": "Trace", "t0": tk(Ts, Tref), "rLo": tk(TMin, Tref), "rHi": tk(TMax, Tref), "sLo": tk(sLo, Tref), "sHi": tk(sHi, Tref),
           "dT": max(1, tk(dT, Tref)), "rTol": cell["rTol"], "paranoid": cell["paranoid"],
           "n": 0, "monotone": False, "nOther": -1, "nOutside": -1, "hessPos": False, "dGrad": -1, "dV": -1, "dPhi": -1,
-          "tabLo": 0, "tabHi": 0, "flagLo": False, "flagHi": False, "rangeLo": 0, "rangeHi": 0, "dInterpV": -1, "dInterpPhi": -1}
+          "nRawOutside": -1, "tabLo": 0, "tabHi": 0, "flagLo": False, "flagHi": False, "rangeLo": 0, "rangeHi": 0, "dInterpV": -1, "dInterpPhi": -1}
     try:
         pot = models.make_potential(m)
         pot.configureDerivatives(WallGo.VeffDerivativeSettings(temperatureVariationScale=0.05 * Tref, fieldValueVariationScale=[0.3 * m.field_scale()] * m.nf))
@@ -133,6 +135,13 @@ def run_cell(cell):
             worstV = min(worstV, quant.digits(abs(V[i] - Vex) / max(abs(Vex), 1e-300)))
             if ex:
                 worstP = min(worstP, quant.digits(d_on / fs))
+        # raw table entries in the 2 dT margins (not served by Thermodynamics, but "every tabulated point" of the statement):
+        # they must still be points where the branch exists -- a table that stores the first step PAST a spinodal has not
+        # stopped before it.
+        margin = [i for i in range(T.size) if i not in set(inside.tolist())]
+        slack = max(2e-5, 10 * rTol)               # the last accepted step may sit on the spinodal to within the tracing tolerance
+        nRawOut = sum(1 for i in margin if not (m.exists(br, T[i]) or m.exists(br, T[i] * (1 - slack)) or m.exists(br, T[i] * (1 + slack))))
+        ev["nRawOutside"] = int(nRawOut)
         ev.update(nOther=nOther, nOutside=nOut, dGrad=worstG, dV=worstV, hessPos=hp, dPhi=worstP)
         if first_bad:
             ev["firstOtherAt"] = first_bad
